@@ -1,145 +1,138 @@
 /-
-  C11 — error contract: accumulated, deduplicated errors; panics are contained.
+  C11 — the error contract of `Parse`, whole-parse form.
+
+  `Properties/C11Base.lean` has the ingredients (de-duplication keeps the first occurrence in order, the prefix shape, panic
+  containment on the runtime model). This file states the contract for a complete `Parse` call as ONE equation between the
+  runtime model and the PEG specification:
+
+      what the caller of Parse sees  =  Spec.run E fuel
+
+  where `Spec.run` evaluates the start rule with the independent semantics `Spec.eval` and applies `Spec.finish`, the
+  result contract written as a five-line function of the outcome (value + recorded errors de-duplicated; the single
+  synthesised "no match" error computed from the log of terminal evaluations; a recovered panic as the final error at the
+  place where the code block was called; the panic itself with `Recover(false)`). It is the top-level theorem of the
+  runtime family: C01 (value, acceptance), C02/C05 (what code blocks saw: the trace inside the world), C11 (this file),
+  C12 (the synthesised error) and C14 (handlers are an argument of `Spec.eval`) are all read off its right-hand side.
 -/
-import PigeonVerif.Model.Runtime
+import PigeonVerif.Properties.C11Base
+import PigeonVerif.Properties.C12
 
 namespace PV
-
-/-! ### `errList.dedupe` -/
-
-theorem dedupeAux_sub (seen l : List String) : ∀ m ∈ dedupeAux seen l, m ∈ l ∧ m ∉ seen := by
-  induction l generalizing seen with
-  | nil => simp [dedupeAux]
-  | cons x xs ih =>
-    intro m hm
-    simp only [dedupeAux] at hm
-    split at hm
-    · obtain ⟨h1, h2⟩ := ih seen m hm
-      exact ⟨List.mem_cons_of_mem _ h1, h2⟩
-    · next hx =>
-      rcases List.mem_cons.mp hm with rfl | hm
-      · exact ⟨List.mem_cons_self, by simpa using hx⟩
-      · obtain ⟨h1, h2⟩ := ih (m := m) (x :: seen) hm
-        exact ⟨List.mem_cons_of_mem _ h1, fun h => h2 (List.mem_cons_of_mem _ h)⟩
-
-theorem dedupeAux_complete (seen l : List String) : ∀ m ∈ l, m ∉ seen → m ∈ dedupeAux seen l := by
-  induction l generalizing seen with
-  | nil => simp
-  | cons x xs ih =>
-    intro m hm hs
-    simp only [dedupeAux]
-    split
-    · next hx =>
-      rcases List.mem_cons.mp hm with rfl | hm
-      · exact absurd (by simpa using hx) hs
-      · exact ih seen m hm hs
-    · next hx =>
-      rcases List.mem_cons.mp hm with rfl | hm
-      · exact List.mem_cons_self
-      · by_cases hmx : m = x
-        · subst hmx; exact List.mem_cons_self
-        · exact List.mem_cons_of_mem _ (ih (x :: seen) m hm (by simp [hmx, hs]))
-
-theorem dedupeAux_nodup (seen l : List String) : (dedupeAux seen l).Nodup := by
-  induction l generalizing seen with
-  | nil => simp [dedupeAux]
-  | cons x xs ih =>
-    simp only [dedupeAux]
-    split
-    · exact ih seen
-    · refine List.nodup_cons.mpr ⟨fun h => ?_, ih _⟩
-      exact (dedupeAux_sub (x :: seen) xs x h).2 List.mem_cons_self
-
-/-- **C11 (a)** messages are reported once… -/
-theorem C11_dedupe_nodup (l : List String) : (dedupe l).Nodup := dedupeAux_nodup [] l
-
-/-- …every message that was recorded is reported, nothing else is… -/
-theorem C11_dedupe_mem (l : List String) (m : String) : m ∈ dedupe l ↔ m ∈ l :=
-  ⟨fun h => (dedupeAux_sub [] l m h).1, fun h => dedupeAux_complete [] l m h (by simp)⟩
-
-/-- …in order of first occurrence (the result is a sublist of the recorded list). -/
-theorem dedupeAux_sublist (seen l : List String) : (dedupeAux seen l).Sublist l := by
-  induction l generalizing seen with
-  | nil => simp [dedupeAux]
-  | cons x xs ih =>
-    simp only [dedupeAux]
-    split
-    · exact (ih seen).cons _
-    · exact (ih _).cons_cons _
-
-theorem C11_dedupe_order (l : List String) : (dedupe l).Sublist l := dedupeAux_sublist [] l
-
-/-- the first recorded message is always the first reported one -/
-theorem C11_dedupe_head (m : String) (l : List String) : (dedupe (m :: l)).head? = some m := by
-  simp [dedupe, dedupeAux]
-
-/-- dedupe is idempotent -/
-theorem dedupeAux_of_nodup (seen l : List String) (h : l.Nodup) (hd : ∀ m ∈ l, m ∉ seen) :
-    dedupeAux seen l = l := by
-  induction l generalizing seen with
-  | nil => rfl
-  | cons x xs ih =>
-    simp only [dedupeAux]
-    have hx : x ∉ seen := hd x List.mem_cons_self
-    have : seen.contains x = false := by simpa using hx
-    simp only [this, Bool.false_eq_true, if_false]
-    congr 1
-    apply ih _ (List.nodup_cons.mp h).2
-    intro m hm
-    have : m ≠ x := fun he => (List.nodup_cons.mp h).1 (he ▸ hm)
-    simp [this, hd m (List.mem_cons_of_mem _ hm)]
-
-theorem C11_dedupe_idem (l : List String) : dedupe (dedupe l) = dedupe l :=
-  dedupeAux_of_nodup [] _ (C11_dedupe_nodup l) (by simp)
-
 namespace RT
 
-/-- **C11 (b)** With `Recover(true)` (the default) no panic escapes `parse`: whatever a code
-    block (or the budget) raises becomes the final recorded error, with a `nil` value. -/
-theorem C11_panic_contained (E : Env) (fuel : Nat) (hr : E.opts.recover = true) :
-    ∀ p s, parse E fuel ≠ .panic p s := by
-  intro p s h
-  unfold parse at h
-  simp only [] at h
-  split at h
-  · simp at h
-  · split at h
-    · simp at h
-    · revert h
-      generalize parseRuleWrap E (parseExpr E fuel) fuel _ (startState E) = o
-      cases o with
-      | oof => simp [finish]
-      | panic p' s' => simp [finish, hr]
-      | done v ok s' => simp only [finish]; split <;> (try split) <;> simp
+/-- what the caller of `Parse` sees of the model's final result -/
+def Final.view : Final → Spec.Final
+  | .oof => .oof
+  | .ret v errs _ => .ret v errs
+  | .panic p s => .panic p s.errs
 
-theorem C11_panic_becomes_final_error (E : Env) (hr : E.opts.recover = true) (p : PanicVal) (s : PState) :
-    finish E (.panic p s) = .ret .nil (dedupe (s.errs ++ [errPrefix E s s.pt.pos ++ ": " ++ panicMessage p]))
-      (addErr E s (panicMessage p)) := by
-  simp [finish, hr, addErr, addErrAt]
+theorem errPrefix_rule (E : Env) (s : PState) (pos : Pos) :
+    errPrefix E s pos = Spec.errPrefix E { rule := s.rstack.head?, handlers := [] } pos := by
+  unfold errPrefix Spec.errPrefix
+  cases s.rstack <;> rfl
 
-/-- **C11 (c)** with `Recover(false)` the panic propagates to the caller -/
-theorem C11_panic_propagates (E : Env) (hr : E.opts.recover = false) (p : PanicVal) (s : PState) :
-    finish E (.panic p s) = .panic p s := by
-  simp [finish, hr]
+theorem firstPos_eq (E : Env) : Spec.firstPos E = firstPos E := rfl
 
-/-- a value and errors can be returned together: a successful parse returns its value and
-    whatever errors were recorded on the way -/
-theorem C11_value_and_errors (E : Env) (v : Val) (s : PState) :
-    finish E (.done v true s) = .ret v (dedupe s.errs) s := by
-  simp [finish]
+/-- **C11 — the contract of a whole parse.** Plain configuration (no Memoize, no budget, no left-recursive rules), EVERY
+    grammar, code environment, template variant, entry point, input and depth: value and error list returned by `Parse` are
+    `Spec.run` - the start rule evaluated by the PEG specification, then the result contract `Spec.finish`. In particular
+    (read off `Spec.finish` / `Spec.eval`): every error a code block returns is in the list, prefixed with file, position of
+    its match and rule (`Spec.addErrAt` in the `action` / `andCode` / `notCode` / `stateCode` clauses), parsing continues
+    after it (the clause returns `.ok` / `.fail` with the extended world), a value and errors can be returned together
+    (`.ok v … w ↦ .ret v (dedupe w.errs)`), equal messages are reported once in order of first occurrence (`dedupe`:
+    `C11_dedupe_nodup`, `C11_dedupe_mem`, `C11_dedupe_order`), a panic with `Recover(true)` becomes the final error with a
+    nil value, and propagates with `Recover(false)`. -/
+theorem C11_parse_contract (E : Env) (hp : Plain E) (fuel : Nat) : (parse E fuel).view = Spec.run E fuel := by
+  cases hr : E.rules with
+  | nil =>
+    simp [parse, Spec.run, hr, Final.view, addErr, addErrAt, initState, dedupe, dedupeAux, Spec.topErr, errPrefix,
+      Spec.errPrefix, pt0]
+  | cons first rest =>
+    cases hf : E.findRule (entryName E first) with
+    | none =>
+      simp [parse, Spec.run, hr, hf, Final.view, addErr, addErrAt, initState, dedupe, dedupeAux, Spec.topErr, errPrefix,
+        Spec.errPrefix, pt0]
+    | some r =>
+      obtain ⟨h1, h2⟩ := C01_parse_is_peg E hp fuel first rest hr r hf
+      have hrs0 : (startState E).rstack = [] := by simp [startState, initState]
+      obtain ⟨s0, hs0⟩ : ∃ s0 : PState, s0 = pushV { startState E with rstack := [r] } := ⟨_, rfl⟩
+      have a1 : Spec.parse E fuel = some (abs (parseExpr E fuel r.expr s0)) := by subst hs0; exact h1
+      have a4 : parseRule E (parseExpr E fuel) r (startState E) =
+          (parseExpr E fuel r.expr s0).bind (fun v ok s2 => .done v ok { popV s2 with rstack := (popV s2).rstack.tail }) := by
+        subst hs0; unfold parseRule; simp only [wrap_eq hp.nomemo, hrs0]
+      have hrun : Spec.run E fuel = Spec.finish E (abs (parseExpr E fuel r.expr s0)) := by
+        simp only [Spec.run, hr, hf, a1]
+      rw [hrun]
+      cases ho : parseExpr E fuel r.expr s0 with
+      | oof => rw [h2, a4, ho]; rfl
+      | panic p s1 =>
+        rw [h2, a4, ho]
+        simp only [Outcome.bind, finish, abs, Spec.finish, absP]
+        by_cases hrec : E.opts.recover = true
+        · simp [hrec, Final.view, addErr, addErrAt, errPrefix_rule, absW]
+        · simp [hrec, Final.view, absW]
+      | done v ok s1 =>
+        cases ok with
+        | true =>
+          rw [h2, a4, ho]
+          simp [Outcome.bind, finish, abs, Spec.finish, Final.view, popV, absW]
+        | false =>
+          by_cases he : s1.errs = []
+          · -- the synthesised error: C12
+            have hs : Spec.parse E fuel = some (.fail (envOf s1) (absW s1)) := by rw [a1, ho]; rfl
+            obtain ⟨sf, hsf⟩ := C12_report_is_declarative E hp fuel first rest hr r hf (envOf s1) (absW s1) hs
+              (by simpa [absW] using he)
+            rw [hsf]
+            have : (absW s1).errs.isEmpty = true := by simp [absW, he]
+            simp only [abs, Spec.finish, this, if_true, Final.view, topPrefix, Spec.topErr, firstPos_eq]
+          · rw [h2, a4, ho]
+            have h1' : ({ popV s1 with rstack := (popV s1).rstack.tail } : PState).errs ≠ [] := by simpa [popV] using he
+            simp only [Outcome.bind]
+            rw [C12_not_synthesised E v _ h1']
+            simp [abs, Spec.finish, Final.view, popV, absW, he]
 
-/-- **C11 (d)** every error is `prefix: inner` with `prefix = [file:]line:col (offset)[: rule name]`;
-    the rule part is the display name when there is one. -/
-theorem C11_error_shape (E : Env) (s : PState) (msg : String) (pos : Pos) :
-    (addErrAt E s msg pos).errs = s.errs ++ [errPrefix E s pos ++ ": " ++ msg] := rfl
+/-- every parse is covered: `Plain` is met by any environment without the three features -/
+example (E : Env) (h1 : E.opts.memoize = false) (h2 : E.opts.maxExpr = none)
+    (h3 : ∀ n r, E.findRule n = some r → r.leftRecursive = false ∧ r.leader = false) (fuel : Nat) :
+    (parse E fuel).view = Spec.run E fuel := C11_parse_contract E ⟨h1, h2, h3⟩ fuel
 
-theorem C11_prefix_display_name (E : Env) (s : PState) (pos : Pos) (r : Rule) (rs : List Rule)
-    (hrs : s.rstack = r :: rs) (hd : r.displayName ≠ "") :
-    errPrefix E s pos =
-      (if E.opts.filename ≠ "" then E.opts.filename ++ ":" else "") ++
-        toString pos.line ++ ":" ++ toString pos.col ++ " (" ++ toString pos.off ++ ")" ++
-        ": " ++ ("rule " ++ r.displayName) := by
-  simp [errPrefix, hrs, hd]
+/-! #### read off the contract -/
+
+/-- a value and errors are returned together, each message once -/
+theorem C11_contract_value_and_errors (E : Env) (v : Val) (pt : Savepoint) (env : List (String × Val)) (w : Spec.World) :
+    Spec.finish E (.ok v pt env w) = .ret v (dedupe w.errs) := rfl
+
+/-- a failed parse with recorded errors returns exactly those, each once, and a nil value -/
+theorem C11_contract_failure_with_errors (E : Env) (env : List (String × Val)) (w : Spec.World) (h : w.errs ≠ []) :
+    Spec.finish E (.fail env w) = .ret .nil (dedupe w.errs) := by
+  have : w.errs.isEmpty = false := by cases hs : w.errs <;> simp_all
+  simp [Spec.finish, this]
+
+/-- with `Recover(true)` a panic is the LAST recorded error (unless the same message was recorded before: then that
+    earlier occurrence stands for it), the value is nil -/
+theorem C11_contract_panic_recovered (E : Env) (hrec : E.opts.recover = true) (p : PanicVal) (w : Spec.World)
+    (rule : Option Rule) (pos : Pos) (hs : w.site = some (rule, pos)) :
+    Spec.finish E (.panic p w) =
+      .ret .nil (dedupe (w.errs ++ [Spec.errPrefix E { rule := rule, handlers := [] } pos ++ ": " ++ panicMessage p])) := by
+  simp [Spec.finish, hrec, hs]
+
+/-- with `Recover(false)` it propagates -/
+theorem C11_contract_panic_propagates (E : Env) (hrec : E.opts.recover = false) (p : PanicVal) (w : Spec.World) :
+    Spec.finish E (.panic p w) = .panic p w.errs := by
+  simp [Spec.finish, hrec]
+
+/-- the specification records a code block's error at the START of the action's match, in the current rule, and goes on -/
+theorem C11_contract_action_error_recorded (E : Env) (rec : Spec.Ctx → Expr → List (String × Val) → Savepoint → Spec.World → Spec.Res)
+    (k id blk : Nat) (e1 : Expr) (c : Spec.Ctx) (env : List (String × Val)) (pt pt' : Savepoint) (w w1 : Spec.World)
+    (v1 : Val) (env' : List (String × Val)) (h : rec c e1 env pt w = .ok v1 pt' env' w1)
+    (hnp : (Spec.call E blk env' pt' { w1 with curPos := pt.pos, curText := Spec.slice E pt pt' }).1.panic = none) :
+    Spec.evalStep E rec k c (.action id blk e1) env pt w =
+      .ok (Spec.call E blk env' pt' { w1 with curPos := pt.pos, curText := Spec.slice E pt pt' }).1.ret pt' env'
+        (Spec.rollback E
+          (Spec.addErrAt E c (Spec.call E blk env' pt' { w1 with curPos := pt.pos, curText := Spec.slice E pt pt' }).2
+            (Spec.call E blk env' pt' { w1 with curPos := pt.pos, curText := Spec.slice E pt pt' }).1.err pt.pos)
+          w1.state) := by
+  simp only [Spec.evalStep, h, hnp]
 
 end RT
 end PV
